@@ -526,6 +526,23 @@ def generate(rng, n, tier):
         if i % 15 == 14:
             out.extend(gen_resume(rng))         # one scenario, several crash points (2-4 cases)
             continue
+        if i % 15 == 7:
+            # driven through Simulator.step(): each call simulates SEVERAL periods when max_recompute is None or > 1 (the
+            # bookkeeping of peak / rates must be per period, not per call); the rest of the run is finished by run().
+            # ORACLE ONLY (the Sim model has run() only; step() is modelled for C04 / C05)
+            c = S.gen_step_case(rng, max_sessions=10)
+            c["max_recompute"] = rng.choice([None, None, None, 3, 7])
+            # step() applies the events of period t at the END of the pass for t-1, so an event with timestamp 0 is overdue
+            # when the first pass charges period 0 (C05: NoOverdue; DESIGN §8/§16): the scenario starts in period 1
+            if any(x["arrival"] == 0 for x in c["sessions"]) or 0 in c.get("recomputes", []):
+                for x in c["sessions"]:
+                    x["arrival"] += 1
+                    x["departure"] += 1
+                    if x.get("est") is not None:
+                        x["est"] += 1
+                c["recomputes"] = [r + 1 for r in c.get("recomputes", [])]
+            out.append(c)
+            continue
         r = i % 12
         if r in (0, 1):
             c = gen_exact(rng)
@@ -896,6 +913,11 @@ def _run_resumed(case):
 
 
 def run_impl(case):
+    if case.get("steps") is not None:
+        keep = {}
+        obs = S.run_impl_steps(case, keep=keep, finish=True)
+        _ledger_obs(keep["sim"], obs, False)
+        return obs
     if case.get("resume"):
         return _run_resumed(case)
     stoch = case.get("network") == "stochastic"
@@ -934,6 +956,8 @@ def run_impl(case):
 
 
 def model_request(case):
+    if case.get("steps") is not None:
+        return None             # oracle only
     if case.get("network") == "stochastic":
         return None             # oracle only: the Sim model composes the run loop with a plain ChargingNetwork
     if case.get("resume"):
@@ -1248,7 +1272,7 @@ def features(case, obs):
     f = [f"stations={len(case['stations'])}",
          "sessions=" + ("0" if n == 0 else "1-3" if n <= 3 else "4-8" if n <= 8 else "9-25"),
          f"sched={case['sched']['type']}", f"period={case['period']}", f"err={obs.get('err')}",
-         "stream=" + ("resume" if case.get("resume") else "stochastic" if case.get("network") == "stochastic" else "exact" if case.get("exact") else "malformed" if case.get("malformed") else "structured"),
+         "stream=" + ("step-driven" if case.get("steps") is not None else "resume" if case.get("resume") else "stochastic" if case.get("network") == "stochastic" else "exact" if case.get("exact") else "malformed" if case.get("malformed") else "structured"),
          "charged_sessions=" + ("0" if _charged(obs) == 0 else "1" if _charged(obs) == 1 else "2-4" if _charged(obs) <= 4 else "5+"),
          "back_to_back=" + ("0" if _b2b(case) == 0 else "1+")]
     if case.get("exhaustive"):
